@@ -15,12 +15,19 @@ RULE = ("cases = wiring (device | standalone) x packet script; closed-loop strea
         "last, payload stable until stream.ready) offering payloads of 0..70 bytes (0 = ZLP request: valid & last "
         "without first, one cycle) with every data_pid, back-to-back and with idle gaps; tx_ready schedules: always "
         "ready, random densities 10/50/90 %, long stalls placed exactly before the PID / first payload byte / last "
-        "payload byte / first CRC byte / second CRC byte is accepted; 'malformed' cases drive random "
+        "payload byte / first CRC byte / second CRC byte is accepted; data_pid after the request cycle (= the IDLE cycle "
+        "in which valid & (first | last) is seen, the cycle whose data_pid the generator latches): held (1/4) | moved to "
+        "a different value k cycles after the request, k drawn per packet from 1..stall_len+3, i.e. every offset of the "
+        "PID stall and beyond (1/2) | redrawn every cycle, also during the idle gap before the request (1/4); the "
+        "monitor requires the PID byte selected by data_pid IN THE REQUEST CYCLE; 'malformed' cases drive random "
         "valid/first/last/payload/data_pid every cycle (model comparison only, monitor off)")
 ASSUMPTIONS = [
     "stream producer: valid held from the first to the last byte, first on the first byte, last on the last, payload "
-    "and data_pid stable while a byte is not accepted; a ZLP request is valid & last & ~first for one cycle while "
+    "stable while a byte is not accepted; a ZLP request is valid & last & ~first for one cycle while "
     "the generator is idle",
+    "data_pid: the theorems take it constant over the packet (prodIn); monitor and co-simulation only assume it valid "
+    "in the request cycle (generator idle, valid & (first | last)) and change it freely before and afterwards - the "
+    "model latches it every IDLE cycle exactly as the gateware does",
     "tx_ready is arbitrary (any stall pattern, including never accepting)",
 ]
 PARTIAL = ""
@@ -71,7 +78,10 @@ def make_script(rng):
         pk.append([rng.below(4), None if n == 0 else rng.bytes(n), rng.choice([0, 0, 1, 2, 5])])
     mode = rng.choice(["always", "dens", "dens", "stall", "stall", "stall"])
     sched = {"mode": mode, "p": rng.choice([10, 50, 90]), "stall_len": rng.choice([1, 2, 7, 30]),
-             "stall_at": rng.choice(["pid", "first", "last", "crc1", "crc2", "all"])}
+             "stall_at": rng.choice(["pid", "pid", "first", "last", "crc1", "crc2", "all"])}
+    # data_pid after the request cycle: held | moved to another value k cycles after the request (k sweeps every
+    # offset of the PID stall and a few beyond, per packet) | redrawn every cycle (also during the idle gap before)
+    sched["pidmode"] = rng.choice(["hold", "after", "after", "live"])
     return pk, sched
 
 
@@ -97,21 +107,36 @@ def run_closed(top, gen, pk, sched, rng):
             first = True
             zlp_pulsed = False
             guard = 0
+            since_req = None            # cycles since the request cycle (the IDLE cycle with valid & (first | last))
+            pidmode = sched.get("pidmode", "hold")
+            k_after = rng.range(1, sched["stall_len"] + 3) if pidmode == "after" else 0
+            alt = (pid + 1 + rng.below(3)) % 4 if pidmode == "after" else pid
+
+            def live_pid():
+                if since_req is None:                       # up to and including the request cycle
+                    return pid
+                if pidmode == "after":
+                    return alt if since_req >= k_after else pid
+                if pidmode == "live":
+                    return rng.below(4)
+                return pid
             while accepted < total:
                 guard += 1
                 if guard > 6000:        # 73 bytes at 10 % tx_ready need ~800 cycles; this is a wedged transmitter
                     stuck.append(len(irows))
                     break
                 if gap > 0:
-                    row = [pid, 0, 0, 0, rng.below(256), 1]
+                    # idle before the request: the value here must not matter (only the request cycle's does)
+                    row = [rng.below(4) if pidmode == "live" else pid, 0, 0, 0, rng.below(256), 1]
                     gap -= 1
                 else:
                     if payload:
-                        row = [pid, 1 if q else 0, 1 if (q and first) else 0, 1 if len(q) == 1 else 0,
+                        row = [live_pid(), 1 if q else 0, 1 if (q and first) else 0, 1 if len(q) == 1 else 0,
                                q[0] if q else rng.below(256), 1]
                     else:
-                        row = [pid, 0 if zlp_pulsed else 1, 0, 0 if zlp_pulsed else 1, rng.below(256), 1]
+                        row = [live_pid(), 0 if zlp_pulsed else 1, 0, 0 if zlp_pulsed else 1, rng.below(256), 1]
                         zlp_pulsed = True
+                    since_req = 1 if since_req is None else since_req + 1   # offset of the NEXT row
                     if sched["mode"] == "dens":
                         row[5] = 1 if rng.chance(sched["p"]) else 0
                     elif sched["mode"] == "stall":
@@ -177,9 +202,16 @@ def monitor(pk, irows, orows, stuck=()):
     got = U.parse_tx([(o[0], i[5], o[1]) for i, o in zip(irows, orows)])
     if got != want:
         k = next((j for j in range(max(len(got), len(want))) if j >= len(got) or j >= len(want) or got[j] != want[j]), 0)
-        fails.append({"cycle": 0, "sig": "tx-packet-bytes",
-                      "what": "transmitted packet #%d is %r, required [PID] ++ payload ++ CRC16-LE = %r"
-                              % (k, got[k] if k < len(got) else None, want[k] if k < len(want) else None)})
+        if k < len(got) and k < len(want) and got[k][1:] == want[k][1:] and got[k][:1] != want[k][:1]:
+            fails.append({"cycle": 0, "sig": "tx-packet-pid",
+                          "what": "transmitted packet #%d starts with PID byte 0x%02x; required 0x%02x = the DATA PID "
+                                  "selected by data_pid=%d in the cycle the packet was requested (generator idle, "
+                                  "stream.valid & (first | last)); data_pid afterwards is irrelevant"
+                                  % (k, got[k][0], want[k][0], pk[k][0])})
+        else:
+            fails.append({"cycle": 0, "sig": "tx-packet-bytes",
+                          "what": "transmitted packet #%d is %r, required [PID] ++ payload ++ CRC16-LE = %r"
+                                  % (k, got[k] if k < len(got) else None, want[k] if k < len(want) else None)})
     consumed = [i[4] for i, o in zip(irows, orows) if o[2] and i[1]]
     offered = [b for (_p, payload, _g) in pk for b in (payload or [])]
     if consumed != offered:
